@@ -852,7 +852,7 @@ class Model:
             self.emit(["X", "delete", str(op[1])])
             self.f("delete")
         elif k in ("gcreate", "gswitch", "gpush", "gpop", "gdelete", "gscan_bytes",
-                   "gscan_string", "gscan_buffer", "gflush", "greflush", "gdelrestart"):
+                   "gscan_string", "gscan_buffer", "gflush", "greflush", "gdelrestart", "gdelpush"):
             self.do_guarded(op)
         elif k == "gdelete_all":     # the user deletes their own non-current buffers
             for s_ in [x for x in self.bufs if x not in self.bstack]:
@@ -918,6 +918,19 @@ class Model:
             del self.bufs[s]
             self.emit(["X", "delete", str(s)])
             self.f("delete")
+        elif k == "gdelpush":
+            # yy_delete_buffer(YY_CURRENT_BUFFER); yypush_buffer_state(slot): with no current
+            # buffer the pushed one takes the vacated place on the stack
+            s = op[1]
+            if s not in self.bufs or s in st:
+                self.emit(["X", "skip", name])
+                return
+            cur = st[-1]
+            del self.bufs[cur]
+            st[-1] = s
+            self.more_pending = False
+            self.emit(["X", "delpush", str(cur), str(s)])
+            self.f("push_without_current_buffer")
         elif k == "gdelrestart":
             # yy_delete_buffer(YY_CURRENT_BUFFER); yyrestart(source): the scanner has no current
             # buffer when yyrestart() is called and makes one for the file it is given
